@@ -26,7 +26,9 @@ STATIC = ["C12_" + n for n in (
     "grad_cyl_is_cart", "grad_sph_is_cart", "div_cyl_is_cart", "div_sph_is_cart", "curl_cyl_is_cart",
     "curl_sph_is_cart", "basis_orthonormal_cyl", "basis_orthonormal_sph", "basis_tangent_cyl", "basis_tangent_sph",
     "padding_div", "padding_curl", "padding_div_code", "padding_zero_components",
-    "D_jet_commute", "Dvia_chain_rule", "D_correct")]
+    "D_jet_commute", "Dvia_chain_rule", "D_correct",
+    "div_grad_cart_is_laplacian", "curl_curl_cart", "div_grad_cyl_is_cart", "div_grad_sph_is_cart", "grad_div_cyl_is_cart",
+    "grad_div_sph_is_cart", "curl_curl_cyl_is_cart", "curl_curl_sph_is_cart")]
 
 SYSTEMS = ["cart", "cyl", "sph"]
 COQ_SYS = {"cart": "Cart", "cyl": "Cyl", "sph": "Sph"}
